@@ -153,7 +153,7 @@ def units(tier, seed=0):
         for name, h, key, props in layout.LAYOUT_UNITS:
             us.append(dict(id='lay.%s.%s' % (L.tag, name), tu='lay_' + L.tag, gen=cxx, template_text=txt, vars={}, entry=h,
                            enforce='@F{%s}' % layout.RX[key], replace=[], props=props, layer='elementTraits.hpp/parameterTraits.hpp',
-                           kind='proof', config='layout: ' + spec))
+                           kind='proof', config='layout: ' + spec, replay='layout'))
     for T, U in conv.PAIRS[tier]:
         cxx = conv.cxx_tu(T, U)
         for form in conv.FORMS:
